@@ -138,6 +138,17 @@ def check_run(ctx, cfg, dev, kw, ref, k, N, Tend, with_model=True):
         if not (back_t.shape == want_t.shape and np.array_equal(back_t, want_t)):
             fail("solution-times:reloaded", f"Solution.from_hdf5(...).times = {back_t.tolist()} but the frame times are {want_t.tolist()}", got=back_t.tolist())
         ctx.count("times_checked_on_reloaded_solutions")
+        # ... whichever recorded frame is being looked at: the times and per-step records are those of the whole run
+        back_ = tdgl.Solution.from_hdf5(sol.path)
+        lo_, hi_ = back_.data_range
+        n_dt = len(np.asarray(back_.dynamics.dt))
+        for k_ in sorted({lo_, (lo_ + hi_) // 2}):
+            back_.solve_step = k_
+            t_k = np.asarray(back_.times, dtype=float)
+            if not (t_k.shape == want_t.shape and np.array_equal(t_k, want_t)) or len(np.asarray(back_.dynamics.dt)) != n_dt:
+                fail("solution-times:frame-selected", f"with recorded frame {k_} of {lo_}..{hi_} selected, Solution.times = {t_k.tolist()} ({len(np.asarray(back_.dynamics.dt))} per-step records) "
+                     f"but the frame times are {want_t.tolist()} ({n_dt} records)", selected=int(k_))
+                break
     except Exception as e:  # noqa
         fail("solution-times-raises", f"loading the solution / its times raised {type(e).__name__}: {e}")
     # thermalisation never recorded, clock restarts
